@@ -359,8 +359,80 @@ def c08_extra(ctx):
         run.failure("filter_chain/STREAM/-", f"listing with continuation/label/section lines gave stream {stream!r}, expected {exp!r}", {"kind": "lx_stream", "lines": lines, "expected": exp})
 
 
+    # (iv) "no line that objdump can print makes the parser fail": every operand form of G goes through a CrossHair
+    # harness of the operand normaliser (shared with C09); an exception is a counterexample there
+    from checks import c09
+    from vlib import ch
+
+    forms = {
+        "REG / STREG-free registers": "reg, indirect_reg",
+        "IMM": "imm",
+        "MEM disp(base,index,scale) / (base,index,scale) / disp(,index,scale)": "mem4, mem3, mem4_nobase",
+        "MEM disp(base) / (base) / seg:(base) / *disp(base) / %st(n) / (bad)": "mem1, mem0",
+        "MEM16 disp(base,index) / (base,index)": "pair4, pair3",
+        "ABS / TARGET / ROUND / decorations / words after a prefix": "passthrough",
+    }
+    run.coverage_extra["operand_forms_covered_by_harness"] = forms
+    hs = [h for h in c09.harnesses(tier()) if not h.name.startswith("c09/compose")]
+    for h in hs:
+        h.key = "parser_fails_" + h.key
+    ch.run_harnesses(run, hs)
+
+
+C10_PRE = '''
+from jasm.global_definitions import Instruction, MatchingSearchMode
+from jasm.consumer import CompleteConsumer
+from jasm.matched_observers import MatchedObserver
+from jasm.stringify_asm.implementations.observers import RemoveEmptyInstructions
+import jasm.consumer as _c
+
+class _NoEngine:
+    """stub for the third-party regex module: the record format does not depend on matching"""
+    @staticmethod
+    def search(pattern, string, timeout=None):
+        return None
+    @staticmethod
+    def finditer(pattern, string, timeout=None):
+        return iter(())
+_c.regex = _NoEngine
+'''
+
+
 def c10_extra(ctx):
-    pass
+    """(1) record format: addr::mnemonic,op,...,| with one empty operand field for an operand-less instruction (CrossHair on
+    the real Instruction.stringify / CompleteConsumer.consume_instruction / finalize);
+    (2) operand texts: the normal forms of C09 are concatenations of the operand's parts with '[', '+', '*', ']'."""
+    from checks import c09
+    from vlib import ch
+
+    run = ctx.run
+    T = 60 if tier() == "quick" else 240
+    hs = []
+    tuples = [(1, 1, 1, 1, 1, 1), (2, 2, 2, 2, 2, 2), (1, 2, 0, 1, 2, 1), (2, 1, 1, 0, 1, 2)]
+    if tier() == "thorough":
+        tuples += [(3, 3, 3, 3, 3, 3), (1, 4, 2, 0, 3, 1), (4, 1, 0, 0, 1, 4)]
+    for tp in tuples:
+        tag = "".join(map(str, tp))
+        names = ["a1", "m1", "o1", "o2", "a2", "m2"]
+        pre = " and ".join(f"len({n}) == {l}" for n, l in zip(names, tp))
+        src = f'''def record_{tag}(a1: str, m1: str, o1: str, o2: str, a2: str, m2: str) -> bool:
+    """
+    pre: {pre}
+    pre: m1 != "empty" and m2 != "empty"
+    post: _
+    """
+    obs = MatchedObserver()
+    c = CompleteConsumer("r", obs, MatchingSearchMode.first_find, False)
+    c.add_observer(RemoveEmptyInstructions())
+    c.consume_instruction(Instruction(a1, m1, [o1, o2]))
+    c.consume_instruction(Instruction("7", "empty", []))
+    c.consume_instruction(Instruction(a2, m2, []))
+    c.finalize()
+    return obs.stringified_instructions == a1 + "::" + m1 + "," + o1 + "," + o2 + ",|" + a2 + "::" + m2 + ",,|"
+'''
+        hs.append(ch.H(f"c10/record/{tag}", src, timeout=T, prelude=C10_PRE, key="record_format", note="two instructions (2 operands / none) + a byte-continuation pseudo instruction that must be dropped"))
+    hs += [h for h in c09.harnesses(tier()) if any(x in h.name for x in ("/mem4/", "/mem3/", "/mem1/", "/mem0/", "/pair", "/mem4_nobase/"))]
+    ch.run_harnesses(run, hs)
 
 
 def c16_extra(ctx):
